@@ -37,7 +37,7 @@ Proof.
   destruct (ap_eqb a b) eqn:E.
   - left. apply ap_eqb_eq. exact E.
   - right. intros H. apply ap_eqb_eq in H. congruence.
-Qed.
+Defined.   (* transparent: nodup ap_eq_dec computes in the examples *)
 
 (* ---- prune ---- *)
 
